@@ -321,6 +321,12 @@ def run_real(desc, ctx):
             else:
                 simlink.SIMS[u].fail_in_connect = bad_mode
     ob = {'seen': [], 'exc': None}
+    # the link of one healthy member fails at the very moment it is being closed (on the stop setpoint close_link sends)
+    dying = None
+    if rnd.random() < 0.5:
+        dying = rnd.choice([u for u in uris if u != bad])
+        simlink.SIMS[dying].fail_on_tx = lambda h, d: (h >> 4) & 0xF == 3
+        simlink.SIMS[dying].fail_reporter = rnd.choice(('sender', 'sender', 'driver'))
 
     def fn(s):
         for d in devs.values():
@@ -364,6 +370,9 @@ def run_real(desc, ctx):
     info = {'uris': uris, 'unreachable': bad, 'how_it_fails': bad_mode}
     if bad_mode not in (None, 'missing'):
         ctx.count('mon.real_swarm_member_whose_link_dies_while_connecting')
+    if dying is not None:
+        info['link_failing_while_being_closed'] = dying
+        ctx.count('mon.real_swarm_member_whose_link_fails_while_being_closed')
     if reopen and abort is None and ob.get('fault_fired'):
         ctx.count('mon.real_swarm_reopened_with_a_link_dropping_in_the_handshake')
         if ob.get('reopen_exc') is None or ob.get('open_after_reopen'):
